@@ -5,8 +5,20 @@ From CB Require Import GenCyc Gen GenProofs Machine MachineFacts SeqlockInv Seql
 Import ListNotations.
 Open Scope nat_scope.
 
+(* publication order is observed through the records: this file is about the instance [rec_of],
+   whose records are pairwise different *)
+#[local] Existing Instance std_rec.
+
 (* publication number carried by a record: 0 for the empty record *)
 Definition idx_of (rec : list Z) : nat := Z.to_nat (nth 0 rec 0%Z / 1000).
+
+Lemma rec_of_nth n a i : i < n -> nth i (rec_of n a) 0%Z = (if Nat.eqb i 6 then Z.of_nat a mod 3 else 1000 * Z.of_nat a + Z.of_nat i)%Z.
+Proof.
+  intros Hi. unfold rec_of.
+  set (f := fun i0 : nat => (if Nat.eqb i0 6 then Z.of_nat a mod 3 else 1000 * Z.of_nat a + Z.of_nat i0)%Z).
+  rewrite (nth_indep _ 0%Z (f 0)) by (rewrite map_length, seq_length; exact Hi).
+  rewrite map_nth, seq_nth by exact Hi. reflexivity.
+Qed.
 
 Lemma idx_of_rec n a : 0 < n -> idx_of (rec_of n a) = a.
 Proof.
